@@ -25,14 +25,18 @@ def validate(ctx, events, table, label):
     return accepted, devs, res
 
 
-DIRECTED = ["cachekeys", "exclude-reload", "nth-cache", "exclude-race", "tail", "reload-race", "reload-same-count", "casekeys", "narrow-widen"]
+DIRECTED = ["cachekeys", "exclude-reload", "nth-cache", "exclude-race", "tail", "reload-race", "reload-same-count", "casekeys", "narrow-widen",
+            "slow-scan", "reload-same-matches", "slow-tail"]
 
 
 def directed_kind(sid, race):
-    return "cachekeys" if race else DIRECTED[(sid // 3) % len(DIRECTED)]
+    if race:        # under the race detector: cache traffic, and --tail trimming while slow scans hold older snapshots
+        return ["cachekeys", "slow-tail", "slow-scan", "tail"][(sid // 3) % 4]
+    return DIRECTED[(sid // 3) % len(DIRECTED)]
 
 
 def make_job(ctx, rng, sid, race, kind=None):
+    chunk_ms = 0
     n = rng.choice([3, 40, 150, 150, 1200, 1200, 8000] + ([40000] if not ctx.quick else []))
     lines = pipeline.make_lines(rng, n)
     slow = rng.choice([0.2, 1, 1, 3]) if not race else rng.choice([1, 3, 6])
@@ -43,7 +47,7 @@ def make_job(ctx, rng, sid, race, kind=None):
     steps = pipeline.make_steps(rng, rng.randint(6, 30), rng.choice([0.3, 1, 2]), reloads=nrel, excludes=rng.random() < 0.5)
     if sid % 3 == 1 or kind:       # directed scenarios: result-cache key collisions / exclude-reload-same-query / races on the event box
         kind = kind or directed_kind(sid, race)
-        n = rng.choice([150, 330, 1200])
+        n = rng.choice([150, 330, 1200]) if kind not in ("cachekeys", "nth-cache", "casekeys") else rng.choice([1200, 2500])
         lines = pipeline.make_lines(rng, n, sparse=True)
         sched = pipeline.make_schedule(rng, lines, 0.2)
         if kind == "tail":
@@ -61,6 +65,27 @@ def make_job(ctx, rng, sid, race, kind=None):
         if kind == "exclude-reload" and (sid % 8 == 4 or rng.random() < 0.5):     # a reload of exactly the same size arriving in one burst
             relines = [pipeline.make_lines(rng, n, sparse=True)]
             rescheds = [[{"sleep": 0, "lines": relines[0]}]]
+        if kind == "reload-same-matches":
+            n = rng.choice([150, 330])
+            lines = pipeline.make_lines(rng, n, sparse=True)
+            sched = [{"sleep": 0, "lines": lines}]
+            nrel = 1
+            words = [l.split(" ", 1)[1] for l in lines]
+            rng.shuffle(words)
+            relines = [["%05d %s" % (i, w) for i, w in enumerate(words)]]
+            while relines[0] == lines:
+                rng.shuffle(words)
+                relines = [["%05d %s" % (i, w) for i, w in enumerate(words)]]
+            rescheds = [[{"sleep": 0.2, "lines": relines[0]}]]
+        if kind == "slow-scan":
+            lines = pipeline.make_lines(rng, 6400, sparse=True)        # 64 chunks: several per partition
+            sched = [{"sleep": 0, "lines": lines}]
+            chunk_ms = rng.choice([40, 80])
+        if kind == "slow-tail":
+            # --tail with slow scans: snapshots are trimmed while older ones are still being scanned
+            lines = pipeline.make_lines(rng, 1500, sparse=True)
+            sched = [{"sleep": 0.05, "lines": lines[i:i + 50]} for i in range(0, len(lines), 50)]
+            chunk_ms = 30
         if kind == "reload-same-count":
             n = rng.choice([150, 330])
             lines = pipeline.make_lines(rng, n, sparse=True)
@@ -68,22 +93,26 @@ def make_job(ctx, rng, sid, race, kind=None):
             nrel = 1
             relines = [pipeline.make_lines(rng, n + 40, sparse=True)]
             rescheds = [[{"sleep": 0.8, "lines": relines[0][:n]}, {"sleep": 2.0, "lines": relines[0][n:]}]]
-        steps = pipeline.scenario_steps(rng, kind, nrel)
+        steps = pipeline.scenario_steps(rng, "tail" if kind == "slow-tail" else kind, nrel)
     tail = 0
     if kind is None and sid % 3 == 2 and sid % 2 == 0:      # every sixth session runs under --tail
         tail = rng.choice([1, 7, 99, 100, 101, 250, 1000])
     elif kind == "tail":
         tail = rng.choice([5, 100, 150])
-    return (sid, lines, sched, steps, relines, rescheds, tail)
+    elif kind == "slow-tail":
+        tail = rng.choice([250, 330])
+    if kind is None and not race and sid % 5 == 3:
+        chunk_ms = rng.choice([5, 20])          # some of the random sessions with slower scans
+    return (sid, lines, sched, steps, relines, rescheds, tail, chunk_ms)
 
 
 def run_jobs(ctx, jobs, fzf, fzf_oracle, race, label):
     """Runs the sessions, projects their hook traces, builds the oracle tables and validates everything with
     Trace_Pipeline; violations are recorded on ctx.  Returns (events, results)."""
     def do(job):
-        sid, lines, sched, steps, relines, rescheds, tail = job
+        sid, lines, sched, steps, relines, rescheds, tail, chunk_ms = job
         tr, get, cmdmap = pipeline.run_session(ctx, fzf, sid, lines, sched, steps, race_log=race, reload_scheds=rescheds,
-                                               extra_args=(["--tail", str(tail)] if tail else []))
+                                               extra_args=(["--tail", str(tail)] if tail else []), chunk_ms=chunk_ms)
         sizes = {-1: len(lines)}
         sizes.update({k: len(rl) for k, rl in enumerate(relines)})
         evs, keys, cfgs = pipeline.project(tr, get, sid, cmdmap, tail=tail, sizes=sizes)
@@ -161,7 +190,7 @@ def run(ctx, prop="C08"):
     fzf = ctx.build_fzf(race=race)
     fzf_oracle = ctx.build_fzf() if race else fzf
     rng = ctx.rng
-    nsess = ctx.pick(27, 600) if not race else ctx.pick(10, 400)
+    nsess = ctx.pick(36, 600) if not race else ctx.pick(13, 400)
     jobs = [make_job(ctx, rng, sid, race) for sid in range(nsess)]
     if ctx.replay:
         rp = json.load(open(ctx.replay))["case"]
@@ -178,14 +207,31 @@ def run(ctx, prop="C08"):
         import glob
         reports = sorted(glob.glob(os.path.join(ctx.work, "pl-*", "race.*")))
         ctx.cov["race_detector_reports"] = len(reports)
-        for rp in reports[:3]:
+        def race_class(b):
+            # lazily memoised per-item fields written by matcher workers while other goroutines read or copy the item
+            if "transformInput" in b and "pattern.go" in b:
+                return "F23"
+            if "(*Chars).TrimLength" in b and "(*ChunkList).Snapshot" in b:
+                return "F28"
+            return "other"
+        KF = {"F23": {"finding": "F23", "site": "Pattern.transformInput", "kind": "race-on-Item.transformed"},
+              "F28": {"finding": "F28", "site": "Chars.TrimLength vs ChunkList.Snapshot", "kind": "race-on-trimLength-memo-under-tail"}}
+        reported = set()
+        for rp in reports[:6]:
             txt = open(rp, errors="replace").read()
-            case = {"race_report": txt[:20000], "monitor": "go -race"}
-            # every report in the file must be about the per-item token cache for it to be the known finding F23
             blocks = [b for b in txt.split("==================") if "DATA RACE" in b]
-            if blocks and all("transformInput" in b and "pattern.go" in b for b in blocks):
-                case["kf"] = {"finding": "F23", "site": "Pattern.transformInput", "kind": "race-on-Item.transformed"}
-            ctx.violation("Go race detector (monitor, not the TLA+ spec) reported a data race:\n" + txt[:1500], case)
+            by = {}
+            for b in blocks:
+                by.setdefault(race_class(b), []).append(b)
+            for cls, bs in sorted(by.items()):
+                if cls != "other" and cls in reported:
+                    continue
+                reported.add(cls)
+                case = {"race_report": "==================".join(bs)[:20000], "monitor": "go -race", "blocks": len(bs)}
+                if cls in KF:
+                    case["kf"] = KF[cls]
+                ctx.violation("Go race detector (monitor, not the TLA+ spec) reported a data race (%d report(s) of this kind):\n%s" % (
+                    len(bs), bs[0][:2500]), case)
         loading = sum(1 for e in events if e["ev"] == "publish" and not e["final"])
         ctx.cov["publishes_while_loading"] = loading
         ctx.cov["cancelled_scans"] = sum(1 for e in events if e["ev"] == "cancelled")
